@@ -87,6 +87,97 @@ def build(lib):
     reg('dstack', lambda it, a, k: L.np_dstack(it, a[0]))
     reg('mean', lambda it, a, k: L.arr_mean(it, a[0] if isinstance(a[0], SArr) else as_array(it, a[0]), k.get('axis', a[1] if len(a) > 1 else None)))
 
+    def _where(it, a, k):
+        """np.where(cond) for a rank-1 boolean array: a 1-tuple holding the increasing indices where cond is true"""
+        cond = a[0]
+        if len(a) != 1 or not isinstance(cond, SArr) or cond.rank != 1:
+            raise Unsupported("np.where form")
+        it.ctx.note_trusted("np.where(cond)[0]: the indices at which cond is true, in increasing order")
+        n = to_num(cond.shape[0])
+        m = it.ctx.fresh_int('nwhere')
+        src = it.ctx.fresh_func('wsrc', z3.IntSort(), z3.IntSort())
+        j, i = z3.Int(it.ctx._name('jw')), z3.Int(it.ctx._name('iw'))
+        it.ctx.assume(z3.And(m >= 0, m <= n, z3.Implies(z3.Exists([i], z3.And(i >= 0, i < n, cond.get((i,)))), m >= 1)))
+        it.ctx.assume(z3.ForAll([j], z3.Implies(z3.And(j >= 0, j < m), z3.And(src(j) >= 0, src(j) < n, cond.get((src(j),)))), patterns=[src(j)]))
+        # the first entry is the first true index
+        it.ctx.assume(z3.Implies(m >= 1, z3.ForAll([i], z3.Implies(z3.And(i >= 0, i < src(0)), z3.Not(cond.get((i,)))))))
+        return (SArr((m,), lambda o: src(o[0]), 'int'),)
+    reg('where', _where)
+
+    def _searchsorted(it, a, k):
+        """np.searchsorted(t, v) (side='left') on a sorted rank-1 t: the p with t[i] < v for i < p and t[i] >= v for i >= p"""
+        t, v = a[0], a[1]
+        side = k.get('side', a[2] if len(a) > 2 else 'left')
+        if not isinstance(t, SArr) or t.rank != 1:
+            t = as_array(it, t)
+        if isinstance(v, SArr) and v.rank > 0:
+            raise Unsupported("searchsorted of an array of values")
+        v = v.get(()) if isinstance(v, SArr) else to_real(v)
+        it.ctx.note_trusted("np.searchsorted(t, v, side) on a sorted array: the insertion index (left: first i with t[i] >= v; right: first i with t[i] > v)")
+        n = to_num(t.shape[0])
+        i = z3.Int(it.ctx._name('iss'))
+        i2 = z3.Int(it.ctx._name('iss'))
+        it.ctx.oblige("pre(np.searchsorted): the array is sorted",
+                      z3.ForAll([i, i2], z3.Implies(z3.And(i >= 0, i < i2, i2 < n), t.get((i,)) <= t.get((i2,)))))
+        p = it.ctx.fresh_int('ssorted')
+        below = (lambda x: x < v) if side == 'left' else (lambda x: x <= v)
+        it.ctx.assume(z3.And(p >= 0, p <= n))
+        it.ctx.assume(z3.ForAll([i], z3.Implies(z3.And(i >= 0, i < n), (i < p) == below(t.get((i,))))))
+        return p
+    reg('searchsorted', _searchsorted)
+
+    def _histogram(it, a, k):
+        """np.histogram(x, bins=edges, weights=w): hist[b] = sum_j w[j] * [x[j] in bin b]; bins are half-open
+        [e_b, e_{b+1}) except the last, which is closed"""
+        x = a[0] if isinstance(a[0], SArr) else as_array(it, a[0])
+        edges = k.get('bins', a[1] if len(a) > 1 else None)
+        w = k.get('weights', None)
+        if edges is None or isinstance(edges, (int, z3.ArithRef)):
+            raise Unsupported("np.histogram with a bin count")
+        edges = edges if isinstance(edges, SArr) else as_array(it, edges)
+        if x.rank != 1 or edges.rank != 1:
+            raise Unsupported("np.histogram ranks")
+        if w is not None:
+            w = w if isinstance(w, SArr) else as_array(it, w)
+            ok = L.dim_eq(w.shape[0], x.shape[0])
+            it.ctx.oblige("pre(np.histogram): weights have the shape of the sample", to_num(w.shape[0]) == to_num(x.shape[0]) if ok is not True else True)
+        it.ctx.note_trusted("np.histogram(x, bins=edges, weights=w): hist[b] = sum of w[j] (1 without weights) over the x[j] in [e_b, e_b+1) (last bin closed on the right)")
+        nb = z3.simplify(to_num(edges.shape[0]) - 1)
+        n = x.shape[0]
+
+        def inbin(xj, b):
+            lo, hi = edges.get((b,)), edges.get((b + 1,))
+            return z3.And(xj >= lo, z3.If(b == nb - 1, xj <= hi, xj < hi))
+
+        def hist(o):
+            b = o[0]
+            return L.partial_sum(it, n, lambda j: z3.If(inbin(x.get((j,)), b), to_real(w.get((j,))) if w is not None else z3.RealVal(1), z3.RealVal(0)), 'hist')
+        h = SArr((nb,), hist)
+        h.hist_of = (x, edges, w)
+        return (h, edges)
+    reg('histogram', _histogram)
+
+    def _interp(it, a, k):
+        """np.interp(xq, xp, fp): piecewise-linear interpolation; every value lies between min(fp) and max(fp) and, for a
+        query inside [xp[j], xp[j+1]], between fp[j] and fp[j+1]"""
+        xq, xp, fp = a[0], a[1], a[2]
+        xq = xq if isinstance(xq, SArr) else as_array(it, xq)
+        xp = xp if isinstance(xp, SArr) else as_array(it, xp)
+        fp = fp if isinstance(fp, SArr) else as_array(it, fp)
+        it.ctx.note_trusted("np.interp(xq, xp, fp): linear interpolation on increasing xp; each value lies between two neighbouring fp (end values outside the range)")
+        f = it.ctx.fresh_func('interp', z3.IntSort(), z3.RealSort())
+        seg = it.ctx.fresh_func('interp_seg', z3.IntSort(), z3.IntSort())
+        q = z3.Int(it.ctx._name('iq'))
+        n = to_num(xp.shape[0])
+        lo = lambda u, v: z3.If(u <= v, u, v)
+        hi = lambda u, v: z3.If(u <= v, v, u)
+        it.ctx.assume(z3.ForAll([q], z3.Implies(z3.And(q >= 0, q < to_num(xq.shape[0])),
+                                                z3.And(seg(q) >= 0, seg(q) + 1 < n + z3.If(n == 1, 1, 0),
+                                                       f(q) >= lo(fp.get((seg(q),)), fp.get((z3.If(n == 1, seg(q), seg(q) + 1),))),
+                                                       f(q) <= hi(fp.get((seg(q),)), fp.get((z3.If(n == 1, seg(q), seg(q) + 1),))))), patterns=[f(q)]))
+        return SArr((xq.shape[0],), lambda o: f(o[0]))
+    reg('interp', _interp)
+
     def _mod(it, a, k):
         if isinstance(a[1], int) and a[1] == 1 and (isinstance(a[0], SArr) or isinstance(a[0], z3.ArithRef)):
             # np.mod(x, 1) = x - floor(x)  (exact for reals; z3's ToInt is the floor)
